@@ -31,6 +31,7 @@ import (
 	"golang.org/x/crypto/openpgp/clearsign" //nolint
 
 	"helm.sh/helm/v4/pkg/action"
+	"helm.sh/helm/v4/pkg/chart/v2/loader"
 	"helm.sh/helm/v4/pkg/cli"
 	"helm.sh/helm/v4/pkg/downloader"
 	"helm.sh/helm/v4/pkg/getter"
@@ -48,7 +49,9 @@ func init() {
 		Rule: "2 charts x 2 generated keys (RSA-2048, ECDSA-P256; fixed-seed generation) signed through Signatory.ClearSign. Per (chart,key) pair, structured families: " +
 			"unmodified (ClearSign output and time-pinned re-signature), missing provenance, 5 renamed/moved archives (by copy) and 5 renames through symbolic links " +
 			"(archive linked; archive and provenance linked; to another name or to the own name in another directory), 12 tamper-class representatives, every other pair's provenance (also with the archive renamed to match), " +
-			"text/armor splices, content-differs-per-open cases (archive and provenance behind named pipes whose k-th open yields the k-th of two contents: 22 sequences of " +
+			"text/armor splices, keyrings holding the signer's key with its revocation signature (alone / with the other key) and a provenance signed by the signer's encryption-only subkey, " +
+			"an archive longer than loader.MaxDecompressedChartSize (8 cases: unmodified, bit flips before/after the limit and in the last byte, truncation to the limit and by one byte, 1 B / 4 KiB appended), " +
+			"content-differs-per-open cases (archive and provenance behind named pipes whose k-th open yields the k-th of two contents: 22 sequences of " +
 			"genuine / forged-unsigned / forged-signed-by-the-other-key provenance and original / tampered archive, keyrings signer and other+signer, the 4 entry points taking a local path; " +
 			"judged by what was actually served at each open), keyring-file sequences in one process (one path rewritten in place ring1 -> ring2 -> ring1 for all 12 ordered pairs of keyring contents, and one content under " +
 			"two paths, each for the unmodified pair and for a pair with one archive bit flipped, judged after every step), a grid of messages validly signed by the trusted key (8 name keys x 12 digest values x 3 second entries) and 7 repeated-entry messages, " +
@@ -67,6 +70,8 @@ func init() {
 			"messages that list the archive name more than once have no defined meaning in the statement: only 'no listed value matches => reject' is required of them",
 			"action.Pull only accepts the built-in getters, so the Pull entry points fetch from an HTTP server on 127.0.0.1 owned by the worker; with Verify set, " +
 				"a failed pull must return an error and leave nothing in the untar directory; pulls without Verify are outside the statement",
+			"loader.MaxDecompressedChartSize is a package variable: family large-archive lowers it to 16 KiB while its cases (and the signing of its archive) run, so a 36 KiB archive stands for one above 100 MiB",
+			"key expiry is not in the keyring alphabet: golang.org/x/crypto/openpgp does not evaluate it for detached signatures, so the reference has no opinion",
 			"family reopen needs named pipes and /proc/self/fd (Linux); every entry-point call in it has a 60 s deadline, an expired deadline is reported as not exhaustive " +
 				"under the name reopen/deadline-exceeded/<sequence>, never as a violation",
 			"a symbolic link offered under its own file name whose provenance exists only next to the link target is not judged (not generated)",
@@ -75,6 +80,7 @@ func init() {
 		RequiredFloors: []string{"real-clearsign-roundtrip", "accept-baseline", "accept-noop-mutant", "reject-no-block", "reject-bad-signature",
 			"reject-unknown-key", "reject-digest-mismatch", "reject-no-entry", "reject-no-prov", "download-verifyalways-error", "accept-in-subdir",
 			"ring-rewrite:accept-then-reject", "ring-rewrite:reject-then-accept", "ring-rewrite:reject-then-reject", "ring-copy:accept-then-accept", "ring-copy:reject-then-reject",
+			"ring-trust-revoked-rejected", "ring-trust-subkey-rejected", "large-archive-accept", "large-archive-tail-change-rejected",
 			"reopen-accept", "reopen-reject-digest-mismatch", "reopen-reject-file-never-read", "reopen-one-open-per-file"},
 	})
 }
@@ -118,6 +124,8 @@ type caseIn struct {
 	LinkTarget string `json:"link_target,omitempty"`
 	// Entries restricts the entry points to run (empty = all).
 	Entries []string `json:"entries,omitempty"`
+	// LoaderLimit > 0: loader.MaxDecompressedChartSize is set to it while the case runs.
+	LoaderLimit int64 `json:"loader_limit,omitempty"`
 	// ProvSeq/ArchSeq (family reopen): the k-th open of the provenance / archive
 	// path yields the k-th item (the last one for further opens); see reopen.go.
 	ProvSeq []seqItem `json:"prov_seq,omitempty"`
@@ -493,6 +501,9 @@ func judge(ci *caseIn, v verdict, entry string, o obs) []finding {
 // execCase runs one case through every entry point and returns the reference
 // verdict, the observations and the violations (grouped by kind).
 func (e *env) execCase(ci *caseIn) (verdict, []obs, []core.Violation) {
+	if ci.LoaderLimit > 0 {
+		defer setLoaderLimit(ci.LoaderLimit)()
+	}
 	dir := filepath.Join(e.root, "w")
 	if ci.SubDir != "" {
 		dir = filepath.Join(dir, ci.SubDir)
@@ -606,6 +617,13 @@ func keyRegion(ci *caseIn, v verdict) string {
 		return name
 	}
 	return value
+}
+
+// setLoaderLimit sets the loader's size limit and returns the function that restores it.
+func setLoaderLimit(n int64) func() {
+	old := loader.MaxDecompressedChartSize
+	loader.MaxDecompressedChartSize = n
+	return func() { loader.MaxDecompressedChartSize = old }
 }
 
 func replay(c *core.Ctx, data json.RawMessage) []core.Violation {
@@ -950,6 +968,14 @@ func (x *explorer) floors(ci *caseIn, v verdict, os_ []obs) {
 		c.Floor("accept-baseline")
 	case v.Accept && allOK && strings.HasPrefix(ci.Family, "prov-"):
 		c.Floor("accept-noop-mutant")
+	case ci.Family == "ring-trust" && !v.Accept && allErr && ci.Region == "signature-by-encryption-subkey":
+		c.Floor("ring-trust-subkey-rejected")
+	case ci.Family == "ring-trust" && !v.Accept && allErr:
+		c.Floor("ring-trust-revoked-rejected")
+	case ci.Family == "large-archive" && v.Accept && allOK:
+		c.Floor("large-archive-accept")
+	case ci.Family == "large-archive" && !v.Accept && allErr && ci.Region != "bit-flipped-in-last-byte-before-limit":
+		c.Floor("large-archive-tail-change-rejected")
 	case v.Accept && allOK && ci.SubDir != "":
 		c.Floor("accept-in-subdir")
 	case !v.Accept && allErr:
@@ -1225,6 +1251,12 @@ func (x *explorer) structured() {
 		}
 		if x.want("reopen") {
 			x.reopenCases(pi)
+		}
+		if x.want("ring-trust") {
+			x.ringTrust(pi)
+		}
+		if x.want("large-archive") && p.Chart == 0 {
+			x.largeArchive(pi)
 		}
 	}
 }
